@@ -2118,8 +2118,14 @@ class Executor:
             env.vars[cl.label] = self.spec.eval(cl.ast, env)
         lets = dict(env.vars)
         site = self.site_label(frame, 'call', ins)
+        tc = getattr(self.topframe, 'contract', None)
         for cl in c.requires:
             for lbl, t in self.spec.eval_conjuncts(cl, env):
+                cname = self.short(f2).split('.')[-1].split(')')[-1] or self.short(f2)
+                if tc is not None and (cname, lbl.split('.')[0]) in tc.assumed_pre:
+                    self.trusted.add('ASSUMED precondition [%s] of %s at its call in %s' % (lbl, self.short(f2), self.short(self.topframe.fn)))
+                    st.assume(t)
+                    continue
                 self.oblige(st, frame, 'pre', '%s:%s:%s' % (site, self.short(f2).split('.')[-1].split(')')[-1] or self.short(f2), lbl), t,
                             cl.props, ins.get('line', 0), 'precondition of %s' % self.short(f2))
                 st.assume(t)
